@@ -44,3 +44,39 @@ def stdlib_expressions(limit_files=None, seed=0):
             continue
         for e in top_expressions(tree):
             yield fn, e
+
+
+SUPPORTED_STMTS = (ast.Expr, ast.If, ast.While, ast.For, ast.Break, ast.Continue, ast.Pass, ast.Assign,
+                   ast.AnnAssign, ast.AugAssign, ast.FunctionDef, ast.Return, ast.Global, ast.Nonlocal,
+                   ast.ClassDef, ast.Import, ast.ImportFrom)
+
+
+class _Strip(ast.NodeTransformer):
+    """Replace every statement the converter does not support by `pass` (keeps the module valid)."""
+
+    def generic_visit(self, node):
+        node = super().generic_visit(node)
+        return node
+
+    def visit(self, node):
+        if isinstance(node, ast.stmt) and not isinstance(node, SUPPORTED_STMTS):
+            return ast.copy_location(ast.Pass(), node)
+        if isinstance(node, ast.ImportFrom) and any(a.name == "*" for a in node.names):
+            return ast.copy_location(ast.Pass(), node)
+        return super().visit(node)
+
+
+def stripped_stdlib_sources(limit_files=None, seed=0, max_bytes=60000):
+    """Standard-library modules with unsupported statements replaced by `pass`, re-rendered as source."""
+    for fn in stdlib_files(limit_files, seed):
+        try:
+            src = open(fn, encoding="utf8").read()
+            if len(src) > max_bytes:
+                continue
+            tree = ast.parse(src)
+            tree = ast.fix_missing_locations(_Strip().visit(tree))
+            out = ast.unparse(tree)
+            ast.parse(out)
+        except Exception:
+            continue
+        yield fn, out
